@@ -8,7 +8,8 @@ Import ListNotations.
 Open Scope list_scope.
 Open Scope string_scope.
 
-Record xcall := mkX { x_kind : string; x_name : string; x_line : nat; x_col : nat; x_pkg : string; x_node : string }.
+(* x_this: the receiver is a field written with its qualifier, this.repo.save() *)
+Record xcall := mkX { x_kind : string; x_name : string; x_line : nat; x_col : nat; x_pkg : string; x_node : string; x_this : bool }.
 Record xfunc := mkXF { xf_name : string; xf_line : nat; xf_col : nat; xf_calls : list xcall; xf_col2 : nat }.
 Record xunit := mkXU { xu_pkg : string; xu_name : string; xu_lines : list string; xu_funcs : list xfunc }.
 
@@ -30,7 +31,7 @@ Definition call_ok (lines : list string) (x : xcall) (c : call) : list string :=
           String.eqb (cut lines (p_sl (c_pos c)) (p_sc (c_pos c)) (p_ec (c_pos c) - p_sc (c_pos c))) (x_name x)
        then [] else ["position"]) ++
       (if String.eqb (x_node x) "" || (String.eqb (c_node c) (x_node x) && String.eqb (c_pkg c) (x_pkg x))
-       then [] else ["resolution"])
+       then [] else [if x_this x then "resolution_this_field" else "resolution"])
     else []))%list.
 
 Fixpoint calls_ok (lines : list string) (xs : list xcall) (cs : list call) : list string :=
